@@ -7,7 +7,7 @@ from sa.selftest import Mutant, Silent
 from sa.source import AnalysisError
 from sa.props._lib_e_machine import ObjV, Opaque, PyRaise, exc_name
 from sa.props._lib_e import http_interp
-from sa.props._lib_e_struct import c21_channel, c21_request, c21_transport_effects, structural
+from sa.props._lib_e_struct import c21_flow_control_siblings, c21_channel, c21_request, c21_transport_effects, structural
 from sa.props._lib_e_http import Harness, WireError, parse_responses, request_info
 
 PROPERTY = "C21"
@@ -25,13 +25,16 @@ EXPLANATION = (
     'y to the replay (typestate/, no function-name list); every HTTPChannel method that reaches transport.write/writeSequence/loseConnection/abortConnectio'
     'n through the intra-class call graph is either the write API of the head-of-line Request, confined to contexts where no request is handled, or dominat'
     "ed by 'not _handlingRequest' (callgraph/); notifications is only appended a fresh Deferred or reset, each firing loop fires callback(None) / errback(r"
-    'eason) and resets the list on every path, _disconnected and finished are set before the call-outs (notify/). FINITE-EXHAUSTIVE (every valuation of the'
-    ' guards, by partial evaluation of the inlined method): rawDataReceived buffers iff busy and writes nothing then; requestDone accepts only the head, re'
-    'plays the whole detached buffer with the flag cleared iff persistent, else closes, and wakes the producer; finish reaches _cleanup iff not finished an'
-    'd not disconnected; the idle timeout is suspended before the hand-over (valuation/). BOUNDED ONLY: order and integrity of the responses on the wire fo'
-    'r pipelined histories, re-entrant callbacks, connection loss points (pipeline/, notify-scenario/) - these are statements about interleavings of severa'
-    "l calls, for which the per-method structural rules give the ingredients but not the composition. Not decided: byte order under real transports' timing"
-    '.'
+    'eason) and resets the list on every path, _disconnected and finished are set before the call-outs, a firing loop over a detached copy of the list (whi'
+    'ch forgets Deferreds registered by the callbacks) is refused unless it drains (notify/). FINITE-EXHAUSTIVE (every valuation of the guards, by partial '
+    'evaluation of the inlined method): rawDataReceived buffers iff busy and writes nothing then; requestDone accepts only the head, replays the whole deta'
+    'ched buffer with the flag cleared iff persistent, else closes, and wakes the producer; finish reaches _cleanup iff not finished and not disconnected; '
+    'the idle timeout is suspended before the hand-over; pauseProducing pauses the network producer under exactly the valuations under which resumeProducin'
+    'g resumes it (sibling agreement) (valuation/). Known finding F21n (bounded): a Deferred requested after finish / after connection loss never fires. BO'
+    "UNDED ONLY: a pause/resume cycle at every point of a request's life leaves the producer resumed; Deferreds registered re-entrantly while firing fire o"
+    'nce; order and integrity of the responses on the wire for pipelined histories, re-entrant callbacks, connection loss points (pipeline/, notify-scenari'
+    'o/) - these are statements about interleavings of several calls, for which the per-method structural rules give the ingredients but not the compositio'
+    "n. Not decided: byte order under real transports' timing."
 )
 ASSUMPTIONS = [
     "the model transport delivers every byte it is given and never re-enters the channel",
@@ -179,6 +182,26 @@ def _pipelining(ctx, h):
     ctx.check(o.kind == "ok" and o.value[0] == 1 and o.value[1] == 0 and o.value[2] >= 2, "pipeline/wake-up", q + " | producer paused by buffered pipelined data",
               f"paused while handling / paused after finish / handed = {o.value if o.kind == 'ok' else o.exc_name!r}: the transport paused because of buffered pipelined data is never "
               "resumed (the next requests are not read) - expected (1, 0, >=2)")
+    # (5b) a transport pause/resume cycle at every point of the connection's life leaves the network producer resumed
+    for label, prefix, handling in (("idle connection", b"", False), ("request line received", b"GET /a HTTP/1.1\r\n", False), ("request cut in its headers", b"GET /a HTTP/1.1\r\nHo", False),
+                                    ("request cut in its body", b"POST /a HTTP/1.1\r\nHost: x\r\nContent-Length: 5\r\n\r\nab", False), ("request being handled", _req(b"/a"), True),
+                                    ("request handled, next one partly received", _req(b"/a") + b"GET /b HTTP/1.1\r\nHo", True)):
+        def scen(h, prefix=prefix):
+            ch = h.channel()
+            if prefix:
+                h.feed(ch, prefix)
+            h.call(ch, "pauseProducing")
+            p1 = h.producer.attrs["paused"]
+            h.call(ch, "resumeProducing")
+            p2 = h.producer.attrs["paused"]
+            if h.handed:
+                _answer(h, h.handed[0], [b"x"])
+            return p1, p2, h.producer.attrs["paused"]
+        o = h.run(scen)
+        ok = o.kind == "ok" and o.value[1] == 0 and o.value[2] == 0
+        ctx.check(ok, "pipeline/pause-resume-cycle", f"{q} | {label}",
+                  f"network producer paused after pauseProducing / after resumeProducing / after the response = {o.value if o.kind == 'ok' else o.exc_name!r}; every pause made by pauseProducing must "
+                  "be undone by the next resumeProducing (else the rest of the request is never read)")
     # (6) idle timeout not pending while a request is handled
     def scen(h):
         ch = h.channel(timeOut=60)
@@ -314,6 +337,51 @@ def _notify(ctx, h):
     o = h.run(scen)
     ctx.check(o.kind == "ok" and o.value == (None, ["RuntimeError"], [1, 1], b""), "notify-scenario/disconnected-before-errback", q + " | errback calls finish()",
               f"connectionLost -> {o.value if o.kind == 'ok' else o.exc_name!r}; expected finish() inside the errback to raise RuntimeError, each Deferred fired once, nothing written")
+    # a Deferred handed out re-entrantly, while the notifications are firing, fires too (exactly once)
+    for how in ("finish", "connectionLost"):
+        def scen(h, how=how):
+            with_deferreds(h)
+            ch = h.channel()
+            h.feed(ch, _req(b"/a"))
+            r = h.handed[0]
+            d = h.call(r, "notifyFinish")
+            later = []
+
+            def hook(mm, a, k):
+                if not later:
+                    later.append(h.call(r, "notifyFinish"))
+            h.m.stubs["HOOK"] = hook
+            d.attrs["hook"] = Opaque("HOOK", True)
+            reason = Opaque("reason", True)
+            if how == "finish":
+                _answer(h, r, [b"x"])
+            else:
+                h.call(ch, "connectionLost", reason)
+            res = [list(x.attrs["results"]) for x in [d] + later]
+            return res, [x[0][1] is reason if x and how != "finish" else None for x in res]
+        o = h.run(scen)
+        kind = "callback" if how == "finish" else "errback"
+        ok = o.kind == "ok" and len(o.value[0]) == 2 and all(len(x) == 1 and x[0][0] == kind for x in o.value[0]) and (how == "finish" or all(o.value[1]))
+        ctx.check(ok, "notify-scenario/registered-while-firing", f"{q} | notifyFinish() called from a callback during {how}",
+                  f"results of the first Deferred and of the one requested while it fired: {o.value[0] if o.kind == 'ok' else o.exc_name!r}; expected each fired exactly once via {kind} "
+                  "(a Deferred handed out while the notifications are firing must not be forgotten)")
+    # a Deferred handed out after the response finished / after the connection was lost
+    for how in ("finish", "connectionLost"):
+        def scen(h, how=how):
+            with_deferreds(h)
+            ch = h.channel()
+            h.feed(ch, _req(b"/a"))
+            r = h.handed[0]
+            if how == "finish":
+                _answer(h, r, [b"x"])
+            else:
+                h.call(ch, "connectionLost", Opaque("reason", True))
+            d = h.call(r, "notifyFinish")
+            return list(d.attrs["results"])
+        o = h.run(scen)
+        ctx.check(o.kind == "ok" and len(o.value) == 1, "notify-scenario/registered-after-the-end", f"{q} | notifyFinish() called after {how}",
+                  f"a Deferred requested after {how} has fired {len(o.value) if o.kind == 'ok' else o.exc_name!r} times: it is appended to a list nobody will fire again, so it never fires "
+                  "('every notifyFinish Deferred fires exactly once')")
     # requests still being parsed / queued are told about the loss as well
     def scen(h):
         with_deferreds(h)
@@ -344,6 +412,7 @@ def check(ctx):
     I = http_interp(ctx)
     structural(ctx, "C21 one-request-at-a-time typestate", lambda s: c21_channel(s, I), "the bounded rules pipeline/*")
     structural(ctx, "C21 transport effects over the call graph", lambda s: c21_transport_effects(s, I), "pipeline/no-channel-bytes-during-response (bounded)")
+    structural(ctx, "C21 flow-control sibling agreement", lambda s: c21_flow_control_siblings(s, I), "pipeline/pause-resume-cycle (bounded)")
     structural(ctx, "C21 notifyFinish take-then-fire", lambda s: c21_request(s, I), "the bounded rules notify-scenario/*")
     with ctx.section("pipelining"):
         _pipelining(ctx, Harness(ctx))
@@ -352,6 +421,11 @@ def check(ctx):
 
 
 MUTANTS = [
+    Mutant("notifications-detached-before-firing", HTTP, "        for d in self.notifications:\n            d.callback(None)\n        self.notifications = []", "        pending = self.notifications\n        self.notifications = []\n        for d in pending:\n            d.callback(None)"),
+    Mutant("notifications-detached-before-firing-in-shared-helper", HTTP, "        for d in self.notifications:\n            d.callback(None)\n        self.notifications = []",
+           "        self._settle(lambda d: d.callback(None))",
+           more=[(HTTP, "        for d in self.notifications:\n            d.errback(reason)\n        self.notifications = []", "        self._settle(lambda d: d.errback(reason))"),
+                 (HTTP, "    def loseConnection(self):\n        \"\"\"\n        Pass the loseConnection through to the underlying channel.", "    def _settle(self, how):\n        waiting, self.notifications = self.notifications, []\n        for d in waiting:\n            how(d)\n\n    def loseConnection(self):\n        \"\"\"\n        Pass the loseConnection through to the underlying channel.")]),
     Mutant("busy-flag-after-hand-over", HTTP, "        self._handlingRequest = True\n\n        # We go into raw mode", "        # We go into raw mode",
            more=[(HTTP, "        req.requestReceived(command, path, version)\n", "        req.requestReceived(command, path, version)\n        self._handlingRequest = True\n")]),
     Mutant("no-raw-mode-while-handling", HTTP, "        self.setRawMode()\n\n        req = self.requests[-1]", "        req = self.requests[-1]"),
@@ -376,16 +450,17 @@ MUTANTS = [
     Mutant("hard-cap-closes-mid-response", HTTP, "            self._dataBuffer.append(data)\n            if (\n",
            "            self._dataBuffer.append(data)\n            if sum(map(len, self._dataBuffer)) > 0x40000:\n                self.loseConnection()\n            if (\n"),
     Mutant("backpressure-notice-written-by-channel", HTTP, "        self._waitingForTransport = True\n\n        # The first step", "        self._waitingForTransport = True\n        self._send100Continue()\n\n        # The first step"),
+    Mutant("resume-guard-differs-from-pause-guard", HTTP, "        # We only want to resume the network producer if we're not currently\n        # waiting for a response to show up.\n        if not self._handlingRequest:", "        # We only want to resume the network producer if we're not currently\n        # waiting for a response to show up.\n        if not self.requests:"),
     Mutant("idle-timeout-armed-while-handling", HTTP, "        if self.timeOut:\n            self._savedTimeOut = self.setTimeout(None)\n\n        self._handlingRequest = True", "        self._handlingRequest = True"),
     Mutant("replay-only-first-buffered-piece", HTTP, "            data = b\"\".join(self._dataBuffer)\n", "            data = b\"\".join(self._dataBuffer[:1])\n"),
     Mutant("cleanup-does-not-report-done", HTTP, "        self.channel.requestDone(self)\n        del self.channel", "        del self.channel"),
     Mutant("finish-fires-errback", HTTP, "            d.callback(None)", "            d.errback(None)"),
 ]
 SILENT = [
-    Silent("notifications-resolved-by-shared-helper", HTTP, "        for d in self.notifications:\n            d.callback(None)\n        self.notifications = []",
+    Silent("notifications-fired-by-shared-helper-in-place", HTTP, "        for d in self.notifications:\n            d.callback(None)\n        self.notifications = []",
            "        self._settle(lambda d: d.callback(None))",
            more=[(HTTP, "        for d in self.notifications:\n            d.errback(reason)\n        self.notifications = []", "        self._settle(lambda d: d.errback(reason))"),
-                 (HTTP, "    def loseConnection(self):\n        \"\"\"\n        Pass the loseConnection through to the underlying channel.", "    def _settle(self, how):\n        waiting, self.notifications = self.notifications, []\n        for d in waiting:\n            how(d)\n\n    def loseConnection(self):\n        \"\"\"\n        Pass the loseConnection through to the underlying channel.")]),
+                 (HTTP, "    def loseConnection(self):\n        \"\"\"\n        Pass the loseConnection through to the underlying channel.", "    def _settle(self, how):\n        for d in self.notifications:\n            how(d)\n        self.notifications = []\n\n    def loseConnection(self):\n        \"\"\"\n        Pass the loseConnection through to the underlying channel.")]),
     Silent("buffer-handling-in-helpers", HTTP, "            data = b\"\".join(self._dataBuffer)\n            self._dataBuffer = []\n            self.setLineMode(data)", "            self.setLineMode(self._drainPipelined())",
            more=[(HTTP, "    def timeoutConnection(self):\n", "    def _drainPipelined(self):\n        pieces, self._dataBuffer = self._dataBuffer, []\n        return b\"\".join(pieces)\n\n    def timeoutConnection(self):\n")]),
     Silent("raw-data-branches-swapped", HTTP, "        if self._handlingRequest:\n            self._dataBuffer.append(data)\n            if (\n                sum(map(len, self._dataBuffer)) > self._optimisticEagerReadSize\n            ) and not self._waitingForTransport:",
@@ -394,7 +469,6 @@ SILENT = [
     Silent("head-check-identity", HTTP, "        if request != self.requests[0]:\n            raise TypeError", "        if request is not self.requests[0]:\n            raise TypeError"),
     Silent("buffer-swap-tuple", HTTP, "            data = b\"\".join(self._dataBuffer)\n            self._dataBuffer = []\n", "            data, self._dataBuffer = b\"\".join(self._dataBuffer), []\n"),
     Silent("buffer-cleared-in-place", HTTP, "            data = b\"\".join(self._dataBuffer)\n            self._dataBuffer = []\n", "            data = b\"\".join(self._dataBuffer)\n            self._dataBuffer.clear()\n"),
-    Silent("take-then-fire", HTTP, "        for d in self.notifications:\n            d.callback(None)\n        self.notifications = []", "        pending = self.notifications\n        self.notifications = []\n        for d in pending:\n            d.callback(None)"),
     Silent("notifyFinish-local", HTTP, "        self.notifications.append(Deferred())\n        return self.notifications[-1]", "        d: Deferred[None] = Deferred()\n        self.notifications.append(d)\n        return d"),
     Silent("busy-and-raw-swapped", HTTP, "        self._handlingRequest = True\n\n        # We go into raw mode here even though we will be receiving lines next\n        # in the protocol; however, this data will be buffered and then passed\n        # back to line mode in the setLineMode call in requestDone.\n        self.setRawMode()\n",
            "        self.setRawMode()\n        self._handlingRequest = True\n"),
